@@ -6,6 +6,10 @@ props = [json.loads(l) for l in open(os.path.join(VERIF, 'properties.jsonl'))]
 ids = [p['id'] for p in props]
 
 CHECKS = {
+ 'C04': dict(engine='E1 enum', category='exploration', design_ref='3 C04',
+   technique='exhaustive single type-directed mutation of valid requests; type walk of the arguments captured in user code',
+   text='For valid requests of a program with inheritance, unrelated classes, arrays, repeated members, enums and ten primitive kinds (and a SOAP header program): every element retagged xsi:type with every class key of the interface plus XSD built-ins (prefixes bound in the document) under validator None/soft/lxml for XmlDocument, Soap11 and Soap12; every node of the JSON/YAML/MessagePack document replaced by every other value kind and every wrapper key renamed to every other class name and to an unknown one, for ignore_wrappers x polymorphic under soft validation; an index, a sub-key, a truncation and a duplicate on every HttpRpc key. The oracle walks what the user function received against the declared type tree; if the function did not run the answer must be a Client-family fault.',
+   note='int is accepted where Double/Decimal is declared; only single mutations are enumerated; dict/HttpRpc mutations run with validator=soft as the property quantifies.'),
  'C03': dict(engine='E1 enum', category='exploration', design_ref='3 C03',
    technique='exhaustive permutation of flattened query pairs, index spellings and configurations against a reference unflattener, through WSGI GET',
    text='For fixed nested signature shapes (primitives, object, arrays of objects of 1/2/3/11 members, arrays of objects holding arrays) and every small shape, every permutation of the query pairs (all n! up to 5 pairs quick / 6 thorough; beyond that sorted, reversed, all rotations and all adjacent transpositions), contiguous / sparse / omitted index spellings, three delimiters x strict_arrays x validator, four percent-encoding variants, through the real WsgiApplication. The reference unflattener gives the expected object for that very pair sequence; sparse spellings under strict_arrays must be refused; object_to_simple_dict o simple_dict_to_object must be the identity; every primitive return value must be the exact body with declared out-header fields as HTTP headers.',
